@@ -137,7 +137,7 @@ static Key *load_key(const KeySpec &sp) {
 static std::vector<Key *> &keys() {
   static std::vector<Key *> v;
   if (v.empty()) for (size_t i = 0; i < NKEYS; i++) { Key *k = load_key(KEYSPECS[i]);
-    k->verify_ms = k->algo == TMCG_OPENPGP_PKALGO_DSA ? (k->qbits > 200 ? 7.5 : 2.5) : k->curve == "NIST P-256" ? 23 : k->curve == "NIST P-384" ? 80 : 0.7; v.push_back(k); }
+    k->verify_ms = k->algo == TMCG_OPENPGP_PKALGO_DSA ? (k->qbits > 200 ? 3.5 : 1.2) : k->curve == "NIST P-256" ? 2.7 : k->curve == "NIST P-384" ? 3.7 : 0.7; v.push_back(k); }
   return v;
 }
 static Key &key_named(const std::string &n) { for (auto k : keys()) if (k->name == n) return *k; throw std::runtime_error("no key " + n); }
@@ -226,6 +226,9 @@ static Region key_region(const Oct &in, const Span &s, size_t pos) {
 
 // =========================================================================== forked evaluation of parser-facing faults
 // A sanitizer report costs seconds (symbolizer); inside a fault child only the fact of the death matters.
+// The fault loops allocate and free small buffers millions of times; with the default 256 MiB quarantine every allocation touches
+// fresh pages (half of the run time was page-fault handling).  Memory-safety of the decoder is the business of C12, not of this check.
+extern "C" const char *__asan_default_options() { return "quarantine_size_mb=8:thread_local_quarantine_size_kb=256:malloc_context_size=2:allocator_release_to_os_interval_ms=-1"; }
 static volatile int g_in_child = 0;
 extern "C" void __asan_on_error() { if (g_in_child) _exit(86); }
 extern "C" void __ubsan_on_report() { if (g_in_child) _exit(87); }
@@ -751,4 +754,227 @@ VF_SUB(sig_validity_time_and_weakhash, 700, 25000) {
       break; }
   }
   set_vnow(0);
+}
+
+// =========================================================================== symmetric encryption
+static int gc_cipher(int pgp) {
+  switch (pgp) { case 1: return GCRY_CIPHER_IDEA; case 2: return GCRY_CIPHER_3DES; case 3: return GCRY_CIPHER_CAST5; case 4: return GCRY_CIPHER_BLOWFISH; case 7: return GCRY_CIPHER_AES128; case 8: return GCRY_CIPHER_AES192;
+    case 9: return GCRY_CIPHER_AES256; case 10: return GCRY_CIPHER_TWOFISH; case 11: return GCRY_CIPHER_CAMELLIA128; case 12: return GCRY_CIPHER_CAMELLIA192; case 13: return GCRY_CIPHER_CAMELLIA256; default: return 0; }
+}
+static const char *cipher_name(int pgp) {
+  switch (pgp) { case 1: return "IDEA"; case 2: return "3DES"; case 3: return "CAST5"; case 4: return "BLOWFISH"; case 7: return "AES128"; case 8: return "AES192"; case 9: return "AES256"; case 10: return "TWOFISH"; case 11: return "CAMELLIA128"; case 12: return "CAMELLIA192"; case 13: return "CAMELLIA256"; default: return "?"; }
+}
+static std::vector<int> usable_ciphers(bool block16) {
+  std::vector<int> v; static const int all[] = {2, 3, 4, 7, 8, 9, 10, 11, 12, 13, 1};
+  for (int a : all) { int g = gc_cipher(a); if (!g || gcry_cipher_test_algo(g)) continue; if (PGP::AlgorithmKeyLength((tmcg_openpgp_skalgo_t)a) == 0 || PGP::AlgorithmIVLength((tmcg_openpgp_skalgo_t)a) == 0) continue;
+    if (block16 && gcry_cipher_get_algo_blklen(g) != 16) continue; v.push_back(a); }
+  return v;
+}
+// session key in the OpenPGP form: algorithm octet, key, two-octet checksum
+static SOct session_key(int algo, const Oct &key) { SOct s; s.push_back((unsigned char)algo); unsigned sum = 0; for (auto b : key) { s.push_back(b); sum += b; } s.push_back((sum >> 8) & 0xFF); s.push_back(sum & 0xFF); return s; }
+// RFC 4880 5.13: CFB with zero IV over prefix || plaintext || 0xD3 0x14 || SHA1(prefix || plaintext || 0xD3 0x14), no resynchronisation
+static bool my_seipd_encrypt(int algo, const Oct &key, const Oct &rnd, const Oct &plain, bool with_mdc, Oct &out) {
+  int g = gc_cipher(algo); size_t bs = gcry_cipher_get_algo_blklen(g); Oct buf(rnd.begin(), rnd.begin() + bs); buf.push_back(buf[bs - 2]); buf.push_back(buf[bs - 1]); app(buf, plain);
+  if (with_mdc) { buf.push_back(0xD3); buf.push_back(0x14); Oct hsh = H(2, buf); app(buf, hsh); }
+  gcry_cipher_hd_t hd; if (gcry_cipher_open(&hd, g, GCRY_CIPHER_MODE_CFB, 0)) return false;
+  bool ok = !gcry_cipher_setkey(hd, key.data(), key.size()) && !gcry_cipher_setiv(hd, NULL, 0); out.assign(buf.size(), 0);
+  ok = ok && !gcry_cipher_encrypt(hd, out.data(), out.size(), buf.data(), buf.size()); gcry_cipher_close(hd); return ok;
+}
+static size_t pick_plain_len(Ctx &ctx, std::string &cls) {
+  switch (ctx.c.weighted({1, 1, 4, 4, 1})) { case 0: cls = "empty"; return 0; case 1: cls = "one-byte"; return 1; case 2: cls = "short"; return (size_t)ctx.c.range(2, 40); case 3: cls = "medium"; return (size_t)ctx.c.range(41, 500); default: cls = "long"; return (size_t)ctx.c.range(501, ctx.thorough ? 20000 : 3000); }
+}
+// parse + decrypt as a consumer of the object-level API does; 0 = refused, 1 = decrypted to `expect`, 2 = decrypted to something else
+static unsigned char eval_message(const Oct &bytes, const SOct &key, const Oct &expect) {
+  TMCG_OpenPGP_Message *msg = nullptr; if (!PGP::MessageParse(bytes, 0, msg)) return 0;
+  Oct out; bool ok = msg->Decrypt(key, 0, out); delete msg; if (!ok) return 0; return out == expect ? 1 : 2;
+}
+static bool decrypted_literal_equals(const Oct &dec, const Oct &data) {
+  TMCG_OpenPGP_Message *m2 = nullptr; if (!PGP::MessageParse(dec, 0, m2)) return false; bool ok = m2->literal_data == data; delete m2; return ok;
+}
+
+VF_SUB(sym_mdc_roundtrip_and_flips, 260, 10000) {
+  PGP::MemoryGuardReset();
+  std::string lcls; size_t len = pick_plain_len(ctx, lcls); Oct data = gen_binary_doc(ctx, len), lit; PGP::PacketLitEncode(data, lit);
+  bool own = ctx.c.prob(2, 5); std::vector<int> cs = usable_ciphers(false); int algo = own ? cs[ctx.c.index(cs.size())] : 9;
+  std::ostringstream d; d << (own ? "reference-encrypted " : "library-encrypted ") << cipher_name(algo) << " plaintext=" << lcls << "(" << data.size() << ")"; ctx.label(own ? "encryptor:reference" : "encryptor:library"); ctx.label(std::string("cipher:") + cipher_name(algo)); ctx.label("plaintext:" + lcls);
+  SOct seskey; Oct enc, litmdc;
+  if (!own) { // exactly as the library's test does: a first call fixes the prefix, the MDC is appended, a second call encrypts
+    Oct prefix, dummy, mdcpkt; if (PGP::SymmetricEncryptAES256(lit, seskey, prefix, true, dummy)) { ctx.fail("sym/mdc/library-cannot-encrypt", d.str()); return; }
+    Oct hin = prefix; app(hin, lit); hin.push_back(0xD3); hin.push_back(0x14); PGP::PacketMdcEncode(H(2, hin), mdcpkt); litmdc = cat(lit, mdcpkt);
+    if (ctx.c.coin()) seskey.clear(); // fresh key, same prefix
+    if (PGP::SymmetricEncryptAES256(litmdc, seskey, prefix, false, enc)) { ctx.fail("sym/mdc/library-cannot-encrypt", d.str()); return; }
+    if (seskey.size() != 35 || seskey[0] != 9) ctx.fail("sym/mdc/session-key-format-unexpected", d.str());
+    { unsigned sum = 0; for (size_t i = 1; i + 2 < seskey.size(); i++) sum += seskey[i]; if (seskey.size() == 35 && (((sum >> 8) & 0xFF) != seskey[33] || (sum & 0xFF) != seskey[34])) ctx.fail("sym/mdc/session-key-checksum-wrong", d.str()); }
+  } else {
+    size_t kl = gcry_cipher_get_algo_keylen(gc_cipher(algo)); Oct key = stream_bytes(ctx.c.raw64(), kl), rnd = stream_bytes(ctx.c.raw64(), 16); seskey = session_key(algo, key);
+    if (!my_seipd_encrypt(algo, key, rnd, lit, true, enc)) { ctx.count("skipped_cipher_unusable"); ctx.label("skipped"); return; }
+    Oct mdcpkt; size_t bs = gcry_cipher_get_algo_blklen(gc_cipher(algo)); Oct hin(rnd.begin(), rnd.begin() + bs); hin.push_back(hin[bs - 2]); hin.push_back(hin[bs - 1]); app(hin, lit); hin.push_back(0xD3); hin.push_back(0x14);
+    mdcpkt.push_back(0xD3); mdcpkt.push_back(0x14); app(mdcpkt, H(2, hin)); litmdc = cat(lit, mdcpkt);
+  }
+  Oct pkt; PGP::PacketSeipdEncode(enc, pkt); ctx.desc << d.str(); ctx.nontrivial(d.str() + hkey(pkt));
+  // ---- positive
+  TMCG_OpenPGP_Message *msg = nullptr; if (!PGP::MessageParse(pkt, 0, msg)) { ctx.fail("sym/mdc/untouched-message-unparsable", d.str()); return; }
+  std::unique_ptr<TMCG_OpenPGP_Message> M(msg);
+  if (!M->have_seipd || M->have_sed || M->have_aead || M->encrypted_message != enc) ctx.fail("sym/mdc/parsed-message-differs", d.str());
+  { Oct out; if (!M->Decrypt(seskey, 0, out)) { ctx.fail("sym/mdc/untouched-message-refused", "Decrypt refused: " + d.str() + " pkt=" + hexs(pkt, 300)); return; }
+    if (out != litmdc) { ctx.fail("sym/mdc/decrypts-to-other-plaintext", d.str()); return; }
+    if (!decrypted_literal_equals(out, data)) ctx.fail("sym/mdc/decrypted-literal-differs", d.str());
+    SOct k1(seskey.begin(), seskey.end() - 2); Oct o2; if (!M->Decrypt(k1, 0, o2) || o2 != litmdc) ctx.fail("sym/mdc/key-without-checksum-refused", d.str()); }
+  if (ctx.failed) return; int64_t faults = 0;
+  // ---- every ciphertext byte (object-level, no parser on altered bytes)
+  { FlipPlan P = plan_flips(ctx, enc.size(), ctx.thorough ? 2500 : 700);
+    for (size_t i = 0; i < P.pos.size(); i++) { M->encrypted_message[P.pos[i]] ^= P.mask[i]; Oct out; bool acc = M->Decrypt(seskey, 0, out); M->encrypted_message[P.pos[i]] ^= P.mask[i]; faults++;
+      if (acc) { size_t bs = PGP::AlgorithmIVLength((tmcg_openpgp_skalgo_t)algo); const char *w = P.pos[i] < bs + 2 ? "prefix" : P.pos[i] + 22 >= enc.size() ? "mdc" : "ciphertext";
+        ctx.fail(std::string("sym/mdc/flipped-") + w + "-accepted", "offset " + std::to_string(P.pos[i]) + " of " + std::to_string(enc.size()) + (out == litmdc ? " (same plaintext) " : " (other plaintext) ") + d.str()); break; } }
+    ctx.count("ciphertext_faults", (int64_t)P.pos.size()); }
+  // ---- structural faults
+  if (!ctx.failed) {
+    auto refuse = [&](const Oct &e, const char *what) { Oct save = M->encrypted_message; M->encrypted_message = e; Oct out; bool acc = e.size() && M->Decrypt(seskey, 0, out); M->encrypted_message = save; faults++;
+      if (acc) ctx.fail(std::string("sym/mdc/") + what + "-accepted", d.str()); };
+    for (size_t cut : {(size_t)1, (size_t)2, (size_t)20, (size_t)22, (size_t)23}) if (enc.size() > cut) refuse(Oct(enc.begin(), enc.end() - cut), "truncated-ciphertext");
+    { Oct e = enc; e.push_back(0x00); refuse(e, "extended-ciphertext"); }
+    { Oct e; if (own) { size_t kl = seskey.size() - 3; Oct key(seskey.begin() + 1, seskey.begin() + 1 + kl); my_seipd_encrypt(algo, key, stream_bytes(7, 16), lit, false, e); }
+      else { Oct prefix; SOct k = seskey; PGP::SymmetricEncryptAES256(lit, k, prefix, false, e); }
+      refuse(e, "missing-mdc"); } // the plaintext without MDC packet inside an integrity-protected packet
+    if (enc.size() > 60) { size_t bs = PGP::AlgorithmIVLength((tmcg_openpgp_skalgo_t)algo); Oct e = enc; for (size_t j = 0; j < bs; j++) std::swap(e[bs + 2 + j], e[2 * bs + 2 + j]); if (e != enc) refuse(e, "swapped-blocks"); }
+    // the session key
+    for (size_t i = 0; i < seskey.size(); i++) { SOct k = seskey; k[i] ^= flip_mask(ctx.c.raw64(), i, 0); Oct out; faults++; if (M->Decrypt(k, 0, out) && out == litmdc && i != 0) { ctx.fail("sym/mdc/flipped-session-key-accepted", "octet " + std::to_string(i) + " " + d.str()); break; }
+      if (i == 0 && M->Decrypt(k, 0, out)) { ctx.fail("sym/mdc/flipped-session-key-algorithm-accepted", d.str()); break; } }
+  }
+  // ---- the same ciphertext in a packet without integrity protection (tag 9), and every byte of the packet through the parser
+  if (!ctx.failed) {
+    Oct sed; PGP::PacketSedEncode(enc, sed); unsigned char r = eval_message(sed, seskey, litmdc); faults++;
+    if (r) ctx.fail("sym/sed/downgraded-packet-accepted", "the SEIPD ciphertext repacked as tag 9 was decrypted: " + d.str());
+    std::vector<Span> sp; if (!split_packets(pkt, sp) || sp.size() != 1 || sp[0].tag != 18) { ctx.fail("sym/mdc/packet-framing-unexpected", hexs(pkt, 20)); return; }
+    FlipPlan P = plan_flips(ctx, pkt.size(), ctx.thorough ? 800 : 200); auto mutated = [&](size_t i) { Oct m = pkt; m[P.pos[i]] ^= P.mask[i]; return m; };
+    auto res = run_forked(ctx, P.pos.size(), [&](size_t i) -> unsigned char { return eval_message(mutated(i), seskey, litmdc); }, mutated, "seipd");
+    for (size_t i = 0; i < res.size(); i++) { faults++; if (res[i] >= 0xF0 || res[i] == 0) continue; size_t pos = P.pos[i]; Region r = pos < sp[0].hdr ? R_FRAMING : pos == sp[0].hdr ? R_VERSION : R_CIPHERTEXT;
+      if (r == R_CIPHERTEXT) { ctx.fail("sym/mdc/flipped-packet-ciphertext-accepted", at(pos, P.mask[i], r) + " " + d.str()); break; } else ctx.count(std::string("accepted_unprotected:") + region_name(r)); }
+  }
+  ctx.count("faults_injected", faults);
+}
+
+// --------------------------------------------------------------------------- encrypted data without integrity protection
+VF_SUB(sed_refused, 150, 5000) {
+  PGP::MemoryGuardReset();
+  std::string lcls; size_t len = pick_plain_len(ctx, lcls); Oct data = gen_binary_doc(ctx, len), lit, enc, prefix; PGP::PacketLitEncode(data, lit); SOct seskey;
+  unsigned variant = (unsigned)ctx.c.index(3); static const char *vn[] = {"plain SED (resynchronised CFB)", "SED carrying literal+MDC", "SED after a PKESK"};
+  Oct body = lit;
+  if (variant == 1) { Oct dummy, mdcpkt; PGP::SymmetricEncryptAES256(lit, seskey, prefix, true, dummy); Oct hin = prefix; app(hin, lit); hin.push_back(0xD3); hin.push_back(0x14); PGP::PacketMdcEncode(H(2, hin), mdcpkt); body = cat(lit, mdcpkt); }
+  bool resync = variant != 1 || ctx.c.coin();
+  if (PGP::SymmetricEncryptAES256(body, seskey, prefix, resync, enc)) { ctx.fail("sym/sed/library-cannot-encrypt", vn[variant]); return; }
+  Oct msgb;
+  if (variant == 2) { Key &rk = key_named("rsa2048e"); gcry_mpi_t me = gcry_mpi_new(8); if (PGP::AsymmetricEncryptRSA(seskey, rk.pub, me)) { gcry_mpi_release(me); ctx.fail("pkesk/rsa/library-cannot-encrypt", ""); return; }
+    Oct kid(8, 0); PGP::PacketPkeskEncode(kid, me, msgb); gcry_mpi_release(me); }
+  PGP::PacketSedEncode(enc, msgb);
+  ctx.desc << vn[variant] << (resync ? " resync" : " no-resync") << " plaintext=" << lcls << "(" << data.size() << ")"; ctx.label(vn[variant]); ctx.label("plaintext:" + lcls); ctx.nontrivial(ctx.desc.str() + hkey(msgb));
+  // the function level does decrypt (round trip of the primitive) ...
+  { Oct out, pfx; SOct k = seskey; gcry_error_t e = PGP::SymmetricDecryptAES256(enc, k, pfx, resync, out); if (e || out != body || pfx != prefix) ctx.fail("sym/sed/function-level-roundtrip-differs", ctx.desc.str()); }
+  // ... the message level must refuse
+  TMCG_OpenPGP_Message *msg = nullptr; if (!PGP::MessageParse(msgb, 0, msg)) { ctx.label("refused-by-parser"); return; }
+  std::unique_ptr<TMCG_OpenPGP_Message> M(msg); if (!M->have_sed || M->have_seipd) ctx.fail("sym/sed/parsed-message-differs", ctx.desc.str());
+  Oct out; bool acc = M->Decrypt(seskey, 0, out); ctx.count("faults_injected", 1);
+  if (acc) ctx.fail("sym/sed/unprotected-data-accepted", "Decrypt returned true for a Symmetrically Encrypted Data packet: " + ctx.desc.str());
+  else if (!out.empty()) ctx.count("refused_but_plaintext_left_in_output_buffer");
+  SOct k1(seskey.begin(), seskey.end() - 2); Oct o2; if (M->Decrypt(k1, 0, o2)) ctx.fail("sym/sed/unprotected-data-accepted", ctx.desc.str());
+}
+
+// --------------------------------------------------------------------------- AEAD (draft rfc4880bis: OCB / EAX, chunked)
+static bool aead_mode_available(int aead) { gcry_cipher_hd_t hd; if (gcry_cipher_open(&hd, GCRY_CIPHER_AES128, aead == 1 ? GCRY_CIPHER_MODE_EAX : GCRY_CIPHER_MODE_OCB, 0)) return false; gcry_cipher_close(hd); return true; }
+static Oct aead_ad(int skalgo, int aead, int c) { Oct ad = {0xD4, 0x01, (unsigned char)skalgo, (unsigned char)aead, (unsigned char)c}; for (int i = 0; i < 8; i++) ad.push_back(0); return ad; }
+static size_t pick_aead_len(Ctx &ctx, size_t cd, std::string &cls) {
+  switch (ctx.c.weighted({1, 2, 2, 2, 2, 2, 2, 3})) {
+    case 0: cls = "1"; return 1; case 1: cls = "chunk-1"; return cd - 1; case 2: cls = "chunk"; return cd; case 3: cls = "chunk+1"; return cd + 1; case 4: cls = "2*chunk"; return 2 * cd; case 5: cls = "2*chunk+1"; return 2 * cd + 1;
+    case 6: cls = "k*chunk"; return cd * (size_t)ctx.c.range(3, 6); default: cls = "random"; return (size_t)ctx.c.range(2, 6 * cd);
+  }
+}
+struct AeadMsg { int skalgo, aead, c; size_t cd; Oct lit, iv, enc, pkt; SOct key; std::string err; bool ok = false; };
+// lit is the complete plaintext (a literal packet whose total length is `want`)
+static AeadMsg make_aead(int skalgo, int aead, int c, const Oct &lit) {
+  AeadMsg A; A.skalgo = skalgo; A.aead = aead; A.c = c; A.cd = (size_t)1 << (c + 6); A.lit = lit;
+  gcry_error_t e = PGP::SymmetricEncryptAEAD(lit, A.key, (tmcg_openpgp_skalgo_t)skalgo, (tmcg_openpgp_aeadalgo_t)aead, (tmcg_openpgp_byte_t)c, aead_ad(skalgo, aead, c), 0, A.iv, A.enc);
+  if (e) { A.err = gcry_strerror(e); return A; }
+  PGP::PacketAeadEncode((tmcg_openpgp_skalgo_t)skalgo, (tmcg_openpgp_aeadalgo_t)aead, (tmcg_openpgp_byte_t)c, A.iv, A.enc, A.pkt); A.ok = true; return A;
+}
+static Oct literal_of_total_length(Ctx &ctx, size_t want, Oct &data) { // literal packet: header 8 (body < 192), 9 or 12 octets
+  for (size_t hdr : {(size_t)8, (size_t)9, (size_t)12}) { if (want < hdr) continue; data = gen_binary_doc(ctx, want - hdr); Oct lit; PGP::PacketLitEncode(data, lit); if (lit.size() == want) return lit; }
+  data = gen_binary_doc(ctx, want); Oct lit; PGP::PacketLitEncode(data, lit); return lit;
+}
+
+VF_SUB(sym_aead_roundtrip_and_flips, 260, 10000) {
+  PGP::MemoryGuardReset();
+  std::vector<int> modes; if (aead_mode_available(2)) modes.push_back(2); if (aead_mode_available(1)) modes.push_back(1);
+  if (modes.empty()) { ctx.count("skipped_no_aead_mode"); ctx.label("skipped"); return; }
+  int aead = modes[ctx.c.index(modes.size())]; std::vector<int> cs = usable_ciphers(true); int skalgo = ctx.c.coin() ? 9 : cs[ctx.c.index(cs.size())];
+  if (ctx.c.prob(1, 8)) { // the four-octet associated data form (AEAD-protected session key of a version 5 SKESK), function level only
+    Oct ad = {0xC3, 0x05, (unsigned char)skalgo, (unsigned char)aead}, in = gen_binary_doc(ctx, (size_t)ctx.c.range(1, 64)), iv, enc, out; SOct key;
+    ctx.desc << "skesk-v5 form " << cipher_name(skalgo) << (aead == 2 ? " OCB" : " EAX") << " |in|=" << in.size(); ctx.label("ad4:skesk-v5"); ctx.nontrivial(ctx.desc.str() + hkey(in));
+    if (PGP::SymmetricEncryptAEAD(in, key, (tmcg_openpgp_skalgo_t)skalgo, (tmcg_openpgp_aeadalgo_t)aead, 0, ad, 0, iv, enc)) { ctx.fail("aead/ad4/library-cannot-encrypt", ctx.desc.str()); return; }
+    if (PGP::SymmetricDecryptAEAD(enc, key, (tmcg_openpgp_skalgo_t)skalgo, (tmcg_openpgp_aeadalgo_t)aead, 0, iv, ad, 0, out) || out != in) { ctx.fail("aead/ad4/untouched-refused", ctx.desc.str()); return; }
+    int64_t n = 0; uint64_t seed = ctx.c.raw64();
+    for (size_t i = 0; i < enc.size(); i++) { Oct e = enc, o; e[i] ^= flip_mask(seed, i, 0); n++; if (!PGP::SymmetricDecryptAEAD(e, key, (tmcg_openpgp_skalgo_t)skalgo, (tmcg_openpgp_aeadalgo_t)aead, 0, iv, ad, 0, o)) { ctx.fail("aead/ad4/flipped-ciphertext-accepted", ctx.desc.str()); break; } }
+    for (size_t i = 0; i < ad.size(); i++) { Oct a = ad, o; a[i] ^= flip_mask(seed, i + 500, 0); n++; gcry_error_t e = PGP::SymmetricDecryptAEAD(enc, key, (tmcg_openpgp_skalgo_t)skalgo, (tmcg_openpgp_aeadalgo_t)aead, 0, iv, a, 0, o); if (!e) { ctx.fail("aead/ad4/flipped-associated-data-accepted", "octet " + std::to_string(i) + " " + ctx.desc.str()); break; } }
+    for (size_t i = 0; i < iv.size(); i++) { Oct v = iv, o; v[i] ^= flip_mask(seed, i + 900, 0); n++; if (!PGP::SymmetricDecryptAEAD(enc, key, (tmcg_openpgp_skalgo_t)skalgo, (tmcg_openpgp_aeadalgo_t)aead, 0, v, ad, 0, o)) { ctx.fail("aead/ad4/flipped-nonce-accepted", ctx.desc.str()); break; } }
+    for (size_t i = 0; i < key.size(); i++) { SOct k = key; Oct o; k[i] ^= flip_mask(seed, i + 1300, 0); n++; if (!PGP::SymmetricDecryptAEAD(enc, k, (tmcg_openpgp_skalgo_t)skalgo, (tmcg_openpgp_aeadalgo_t)aead, 0, iv, ad, 0, o)) { ctx.fail("aead/ad4/flipped-key-accepted", ctx.desc.str()); break; } }
+    ctx.count("faults_injected", n); return;
+  }
+  int c = (int)ctx.c.weighted({6, 3, 2, 1}); size_t cd = (size_t)1 << (c + 6); std::string lcls; size_t want = pick_aead_len(ctx, cd, lcls); Oct data, lit = literal_of_total_length(ctx, want, data);
+  std::ostringstream d; d << cipher_name(skalgo) << (aead == 2 ? " OCB" : " EAX") << " chunk-octet=" << c << " (" << cd << "B) plaintext=" << lcls << "(" << lit.size() << ")";
+  ctx.desc << d.str(); ctx.label(aead == 2 ? "mode:OCB" : "mode:EAX"); ctx.label(std::string("cipher:") + cipher_name(skalgo)); ctx.label("chunk-octet:" + std::to_string(c)); ctx.label("length:" + lcls);
+  const std::string Mn = aead == 2 ? "ocb" : "eax";
+  AeadMsg Am = make_aead(skalgo, aead, c, lit); if (!Am.ok) { ctx.fail("aead/" + Mn + "/library-cannot-encrypt", Am.err + " " + d.str()); return; }
+  size_t nfull = (lit.size() - 1) / cd, lastlen = lit.size() - nfull * cd; ctx.nontrivial(d.str() + hkey(Am.pkt));
+  if (Am.enc.size() != lit.size() + 16 * (nfull + 1) + 16) ctx.fail("aead/" + Mn + "/ciphertext-length-unexpected", std::to_string(Am.enc.size()) + " octets for " + d.str());
+  size_t ivlen = aead == 1 ? 16 : 15; if (Am.iv.size() != ivlen) ctx.fail("aead/" + Mn + "/nonce-length-unexpected", d.str());
+  // ---- positive
+  TMCG_OpenPGP_Message *msg = nullptr; if (!PGP::MessageParse(Am.pkt, 0, msg)) { ctx.fail("aead/" + Mn + "/untouched-message-unparsable", d.str()); return; }
+  std::unique_ptr<TMCG_OpenPGP_Message> M(msg);
+  if (!M->have_aead || M->encrypted_message != Am.enc || M->iv != Am.iv || M->chunksize != c || M->skalgo != skalgo || M->aeadalgo != aead) ctx.fail("aead/" + Mn + "/parsed-message-differs", d.str());
+  { Oct out; if (!M->Decrypt(Am.key, 0, out)) { ctx.fail("aead/" + Mn + "/untouched-message-refused", d.str() + " pkt=" + hexs(Am.pkt, 200)); return; }
+    if (out != lit) { ctx.fail("aead/" + Mn + "/decrypts-to-other-plaintext", d.str()); return; } if (!decrypted_literal_equals(out, data)) ctx.fail("aead/" + Mn + "/decrypted-literal-differs", d.str());
+    SOct full = session_key(skalgo, from_secure(Am.key)); Oct o2; if (!M->Decrypt(full, 0, o2) || o2 != lit) ctx.fail("aead/" + Mn + "/key-with-checksum-refused", d.str()); }
+  if (ctx.failed) return; int64_t faults = 0;
+  auto try_enc = [&](const Oct &e) { Oct save = M->encrypted_message; M->encrypted_message = e; Oct out; bool acc = e.size() && M->Decrypt(Am.key, 0, out); M->encrypted_message = save; faults++; return acc; };
+  // ---- every ciphertext / tag byte
+  { FlipPlan P = plan_flips(ctx, Am.enc.size(), ctx.thorough ? 2500 : 700);
+    // make sure every tag octet of the last chunk and the final tag are among the sampled positions
+    if (Am.enc.size() > (ctx.thorough ? 2500u : 700u)) for (size_t p = Am.enc.size() - 32; p < Am.enc.size(); p++) if (std::find(P.pos.begin(), P.pos.end(), p) == P.pos.end()) { P.pos.push_back(p); P.mask.push_back(0x01); }
+    for (size_t i = 0; i < P.pos.size(); i++) { Oct e = Am.enc; e[P.pos[i]] ^= P.mask[i];
+      if (try_enc(e)) { size_t p = P.pos[i], off = p % (cd + 16); const char *w = p >= Am.enc.size() - 16 ? "final-tag" : (p / (cd + 16) < nfull ? (off >= cd ? "chunk-tag" : "chunk-ciphertext") : (p - nfull * (cd + 16) >= lastlen ? "chunk-tag" : "chunk-ciphertext"));
+        ctx.fail("aead/" + Mn + "/flipped-" + w + "-accepted", "offset " + std::to_string(p) + " of " + std::to_string(Am.enc.size()) + " " + d.str()); break; } }
+    ctx.count("ciphertext_faults", (int64_t)P.pos.size()); }
+  // ---- associated data: the header octets that are authenticated, the nonce, the key
+  if (!ctx.failed) {
+    uint64_t seed = ctx.c.raw64(); Oct out;
+    for (size_t i = 0; i < Am.iv.size() && !ctx.failed; i++) { M->iv[i] ^= flip_mask(seed, i, 0); faults++; if (M->Decrypt(Am.key, 0, out)) ctx.fail("aead/" + Mn + "/flipped-nonce-accepted", "octet " + std::to_string(i) + " " + d.str()); M->iv = Am.iv; }
+    for (int bit = 0; bit < 8 && !ctx.failed; bit++) { M->chunksize = (tmcg_openpgp_byte_t)(c ^ (1 << bit)); faults++; out.clear(); if (M->chunksize <= 8 && M->Decrypt(Am.key, 0, out)) ctx.fail("aead/" + Mn + "/altered-chunk-size-octet-accepted", "chunk size octet " + std::to_string((int)M->chunksize) + " " + d.str()); M->chunksize = (tmcg_openpgp_byte_t)c; }
+    for (int v : {0, 2, 3, 5, 255}) { M->version = (tmcg_openpgp_byte_t)v; faults++; out.clear(); if (M->Decrypt(Am.key, 0, out)) ctx.fail("aead/" + Mn + "/altered-version-octet-accepted", "version " + std::to_string(v) + " " + d.str()); M->version = 1; }
+    if (modes.size() == 2) { M->aeadalgo = (tmcg_openpgp_aeadalgo_t)(3 - aead); faults++; out.clear(); if (M->Decrypt(Am.key, 0, out)) ctx.fail("aead/" + Mn + "/altered-aead-algorithm-octet-accepted", d.str()); M->aeadalgo = (tmcg_openpgp_aeadalgo_t)aead; }
+    for (int o : cs) if (o != skalgo && PGP::AlgorithmKeyLength((tmcg_openpgp_skalgo_t)o) == PGP::AlgorithmKeyLength((tmcg_openpgp_skalgo_t)skalgo)) { M->skalgo = (tmcg_openpgp_skalgo_t)o; faults++; out.clear(); if (M->Decrypt(Am.key, 0, out)) ctx.fail("aead/" + Mn + "/altered-cipher-octet-accepted", std::string(cipher_name(o)) + " " + d.str()); M->skalgo = (tmcg_openpgp_skalgo_t)skalgo; }
+    for (size_t i = 0; i < Am.key.size() && !ctx.failed; i++) { SOct k = Am.key; k[i] ^= flip_mask(seed, i + 64, 0); faults++; out.clear(); if (M->Decrypt(k, 0, out)) ctx.fail("aead/" + Mn + "/flipped-key-accepted", d.str()); }
+  }
+  // ---- structural faults on the chunk sequence
+  if (!ctx.failed) {
+    const Oct &E = Am.enc; size_t cs16 = cd + 16; auto chunk = [&](size_t k) { return Oct(E.begin() + k * cs16, E.begin() + (k + 1) * cs16); };
+    auto bad = [&](const Oct &e, const char *what) { if (e != E && try_enc(e)) ctx.fail("aead/" + Mn + "/" + what + "-accepted", d.str()); };
+    bad(Oct(E.begin(), E.end() - 16), "dropped-final-tag"); bad(Oct(E.begin(), E.end() - 1), "truncated-final-tag"); { Oct e = E; e.push_back(0); bad(e, "extended-ciphertext"); }
+    { Oct e(E.begin(), E.begin() + nfull * cs16); e.insert(e.end(), E.end() - 16, E.end()); bad(e, "dropped-last-chunk"); } // truncation: last chunk removed, final tag kept
+    if (nfull >= 1) { Oct e(E.begin() + cs16, E.end()); bad(e, "dropped-first-chunk"); }
+    if (nfull >= 2) { Oct e = E; for (size_t j = 0; j < cs16; j++) std::swap(e[j], e[cs16 + j]); bad(e, "swapped-chunks"); Oct f = E; for (size_t j = 0; j < cd; j++) std::swap(f[j], f[cs16 + j]); bad(f, "swapped-chunk-ciphertexts"); }
+    if (nfull >= 3) { size_t a = ctx.c.index(nfull), b = ctx.c.index(nfull); if (a != b) { Oct e = E; for (size_t j = 0; j < cs16; j++) std::swap(e[a * cs16 + j], e[b * cs16 + j]); bad(e, "swapped-chunks"); } }
+    if (nfull >= 1) { Oct e(E.begin(), E.begin() + cs16); e.insert(e.end(), E.begin(), E.end()); bad(e, "duplicated-chunk"); }
+    if (nfull >= 1 && lastlen == cd) { Oct e = E; Oct c0 = chunk(0), cl(E.begin() + nfull * cs16, E.begin() + nfull * cs16 + cs16); std::copy(cl.begin(), cl.end(), e.begin()); std::copy(c0.begin(), c0.end(), e.begin() + nfull * cs16); bad(e, "swapped-chunks"); }
+    { Oct e = E; std::rotate(e.end() - 32, e.end() - 16, e.end()); bad(e, "swapped-last-tags"); }
+  }
+  // ---- every byte of the packet through the parser (forked)
+  if (!ctx.failed) {
+    std::vector<Span> sp; if (!split_packets(Am.pkt, sp) || sp.size() != 1 || sp[0].tag != 20) { ctx.fail("aead/" + Mn + "/packet-framing-unexpected", hexs(Am.pkt, 20)); return; }
+    FlipPlan P = plan_flips(ctx, Am.pkt.size(), ctx.thorough ? 800 : 200);
+    for (size_t p = 0; p < std::min<size_t>(Am.pkt.size(), sp[0].hdr + 4 + ivlen); p++) if (std::find(P.pos.begin(), P.pos.end(), p) == P.pos.end()) { P.pos.push_back(p); P.mask.push_back(flip_mask(p, p, 0)); }
+    auto mutated = [&](size_t i) { Oct m = Am.pkt; m[P.pos[i]] ^= P.mask[i]; return m; };
+    auto res = run_forked(ctx, P.pos.size(), [&](size_t i) -> unsigned char { return eval_message(mutated(i), Am.key, lit); }, mutated, "aead");
+    for (size_t i = 0; i < res.size(); i++) { faults++; if (res[i] >= 0xF0 || res[i] == 0) continue; size_t pos = P.pos[i]; Region r = pos < sp[0].hdr ? R_FRAMING : pos < sp[0].hdr + 4 + ivlen ? R_AEADHDR : R_CIPHERTEXT;
+      if (region_protected(r)) { ctx.fail("aead/" + Mn + "/flipped-packet-" + region_name(r) + "-accepted", at(pos, P.mask[i], r) + " " + d.str()); break; } else ctx.count(std::string("accepted_unprotected:") + region_name(r)); }
+  }
+  ctx.count("faults_injected", faults);
 }
